@@ -1,5 +1,5 @@
 """Oracle check O1: what RDKit reads from a SMILES string. payload {"items": [smiles,...], "variants": bool}"""
-import json, os, sys
+import re, json, os, sys
 sys.path.insert(0, os.path.dirname(os.path.abspath(__file__)))
 from common_impl import emit
 from rdkit import Chem, RDLogger
@@ -16,9 +16,9 @@ def describe(s, variants, idx):
         out["ok"] = False
         return out
     out["ok"] = True
-    out["formula"] = CalcMolFormula(m)
+    out["formula"] = re.sub(r"[+-]\d*$", "", CalcMolFormula(m))
     out["charge"] = sum(a.GetFormalCharge() for a in m.GetAtoms())
-    out["rings"] = m.GetRingInfo().NumRings()
+    out["rings"] = m.GetNumBonds() - m.GetNumAtoms() + len(Chem.GetMolFrags(m))
     out["components"] = len(Chem.GetMolFrags(m))
     out["heavy"] = m.GetNumHeavyAtoms()
     out["symbols"] = sorted(set(a.GetSymbol() for a in m.GetAtoms()))
